@@ -185,6 +185,19 @@ def run(chk):
             expv.append((str(i % mod) + suffix) * n)
             expv.append(("z" * width + str(i)) * n)
         seqs.append((prog, expv, "repeat-fresh-strings"))
+    for t in range(20 if quick else 400):
+        # the operand is a temporary that is gone right after the operation, so the next operand is likely to sit where it sat
+        n = rng.choice([1, 2, 7, 33, 40, 64, 100])
+        k = rng.randint(20, 60)
+        sfx = rng.choice(["q", "ab", "xyz0123456", ""])
+        form = rng.randrange(3)
+        if form == 0:
+            prog = "let __o = []; let i = 0;\nwhile i < %d { push(__o, (str(i) + %s) * %d); i = i + 1; }" % (k, lit(sfx), n)
+        elif form == 1:
+            prog = "fn rep(x, n) { x * n }\nlet __o = []; let i = 0;\nwhile i < %d { push(__o, rep(str(i) + %s, %d)); i = i + 1; }" % (k, lit(sfx), n)
+        else:
+            prog = "let __o = []; let i = 0;\nwhile i < %d { let r = (str(i) + %s) * %d; push(__o, r); i = i + 1; }" % (k, lit(sfx), n)
+        seqs.append((prog, [(str(i) + sfx) * n for i in range(k)], "repeat-temporaries"))
     scases = [Case("s%d" % i, prog, {"globals": "__o", "steps": 400000}) for i, (prog, _, _) in enumerate(seqs)]
     sres = core.run_cases(scases)
     from .val import canon
